@@ -86,20 +86,20 @@ def execute(case, ctx):
         nz = False
         for n, v in zip(ns, un):
             r = ref.chiAB(A, B, n)
-            bound = ref.chi_drop_bound(A, B, n) + 1e-10 * (1 + abs(r)) + gap_term + ref.chi_merge_term(A, B, 2j * n * math.pi / beta, static=(n == 0))
+            bound = ref.chi_drop_bound(A, B, n) + 1e-10 * (1 + abs(r)) + gap_term + ref.chi_merge_term(A, B, 2j * n * math.pi / beta, static=(n == 0)) + 10.0 * ref.vec_sens(lambda q: q.chiAB(q.Q(a, b), q.Q(c, d), n))
             if not abs(v - r) <= bound:
                 return fail("chi_{%d%d,%d%d}(n=%d) = %r, reference %r (|diff| %.3e > bound %.3e)" % (a, b, c, d, n, v, r, abs(v - r), bound), "mismatch-freq")
             if abs(r) > 1e-7:
                 nz = True
         for z, v in zip(zs, [cx(v) for v in U["z"]]):
             r = ref.chiAB_z(A, B, z)
-            bound = ref.chi_drop_bound(A, B, 0, z=z) + 1e-10 * (1 + abs(r)) + gap_term + ref.chi_merge_term(A, B, z)
+            bound = ref.chi_drop_bound(A, B, 0, z=z) + 1e-10 * (1 + abs(r)) + gap_term + ref.chi_merge_term(A, B, z) + 10.0 * ref.vec_sens(lambda q: q.chiAB_z(q.Q(a, b), q.Q(c, d), z))
             if not abs(v - r) <= bound:
                 return fail("chi_{%d%d,%d%d}(z=%r) = %r, reference %r (|diff| %.3e > bound %.3e)" % (a, b, c, d, z, v, r, abs(v - r), bound), "mismatch-z")
         tb = ref.chi_tau_drop_bound(A, B)
         for tau, v in zip(taus, ut):
             r = ref.chiAB_tau(A, B, tau)
-            if not abs(v - r) <= tb + 1e-10 * (1 + abs(r)) + gap_term + ref.chi_tau_merge_term(A, B, tau):
+            if not abs(v - r) <= tb + 1e-10 * (1 + abs(r)) + gap_term + ref.chi_tau_merge_term(A, B, tau) + 10.0 * ref.vec_sens(lambda q: q.chiAB_tau(q.Q(a, b), q.Q(c, d), tau)):
                 return fail("chi_{%d%d,%d%d}(tau=%r) = %r, reference %r (bound %.3e)" % (a, b, c, d, tau, v, r, tb), "mismatch-tau")
         if sub:
             S_ = run.q(("s", k))
